@@ -219,6 +219,7 @@ def main():
     run.stubs = ['leggauss_quad -> symbolic points/weights', 'laminate.read_stack -> symbolic ABD', 'sin/cos -> (sina,cosa)']
     run.outside = ['orders above the bound', 'kpanel state-based kernel (kpanel_..._num is not registered in modelDB for kG)', 'floating point']
     res = pmap(kprop.job, [(__name__, c) for c in cf])
+    res = kprop.explore_loci(__name__, res, run)      # second pass: the equality loci the executed code branched on
     kprop.handle(run, res, build, 'entries differ from the pre-stress-work Hessian')
     return run.finish()
 
